@@ -286,6 +286,81 @@ example : (∀ bs ∈ batches, ∀ b ∈ bs, batchOk b = true) ∧
     newSegment 7 2 [0x82, 0x01, 0x02, 0x9f, 0x18, 0x01, 0xff] false = ls'[0]?.bind (·[0]?) ∧
     newSegment 9 3 [0xa1, 0x01, 0x41, 0x00] true = ls'[1]?.bind (·[0]?) := by decide
 
+/-- Protocol 3's segment goes out first; every read returns a single byte. -/
+def w' : List Seg :=
+  [⟨9, 32771, [0xa1, 0x01, 0x41, 0x00]⟩, ⟨7, 2, [0x82, 0x01, 0x02, 0x9f, 0x18, 0x01, 0xff]⟩]
+def chunks' : List Bytes := (w'.flatMap encSeg).map fun b => [b]
+
+theorem sent0 : SentBy (2, .responder) [[[0x82, 0x01, 0x02], [0x9f, 0x18, 0x01, 0xff]]]
+    [⟨7, 2, [0x82, 0x01, 0x02, 0x9f, 0x18, 0x01, 0xff]⟩] := by
+  refine ⟨by decide, ?_⟩
+  intro s hs
+  simp only [List.mem_cons, List.mem_nil_iff, or_false] at hs
+  subst hs
+  exact ⟨7, by decide, by decide⟩
+
+theorem sent1 : SentBy (3, .initiator) [[[0xa1, 0x01, 0x41, 0x00]]]
+    [⟨9, 32771, [0xa1, 0x01, 0x41, 0x00]⟩] := by
+  refine ⟨by decide, ?_⟩
+  intro s hs
+  simp only [List.mem_cons, List.mem_nil_iff, or_false] at hs
+  subst hs
+  exact ⟨9, by decide, by decide⟩
+
+/-- All hypotheses of `e2e_transport_sendLoop` hold for this instance (two messages packed
+    into one segment; byte-at-a-time reads), hence its conclusion. -/
+theorem instance_sendLoop :
+    (run cfg chunks').2 = End.eofHeader ∧
+    (receive cfg chunks' (2, .responder)).msgs = [[0x82, 0x01, 0x02], [0x9f, 0x18, 0x01, 0xff]] ∧
+    (receive cfg chunks' (2, .responder)).err = none ∧
+    (receive cfg chunks' (3, .initiator)).msgs = [[0xa1, 0x01, 0x41, 0x00]] ∧
+    (receive cfg chunks' (3, .initiator)).err = none := by
+  have h := e2e_transport_sendLoop cfg keys batches ls' w' chunks' rfl rfl (by decide) (by decide)
+    (by
+      intro k hk
+      simp only [keys, List.mem_cons, List.mem_nil_iff, or_false] at hk
+      rcases hk with rfl | rfl <;> exact ⟨by decide, by unfold modeAllows; decide⟩)
+    (by
+      intro bs hbs m hm
+      simp only [batches, queues, List.map_cons, List.map_nil, List.mem_cons, List.mem_nil_iff,
+        or_false] at hbs
+      rcases hbs with rfl | rfl
+      · simp only [List.flatten_cons, List.flatten_nil, List.append_nil, List.mem_cons,
+          List.mem_nil_iff, or_false] at hm
+        rcases hm with rfl | rfl <;> exact ⟨by unfold IsCborItem; decide, by decide⟩
+      · simp only [List.flatten_cons, List.flatten_nil, List.append_nil, List.mem_cons,
+          List.mem_nil_iff, or_false] at hm
+        subst hm
+        exact ⟨by unfold IsCborItem; decide, by decide⟩)
+    (by
+      intro i l k bs hl hk hb
+      match i, hl, hk, hb with
+      | 0, hl, hk, hb =>
+        simp only [ls', keys, batches, queues, List.map_cons, List.getElem?_cons_zero,
+          Option.some.injEq] at hl hk hb
+        subst hl hk hb
+        exact sent0
+      | 1, hl, hk, hb =>
+        simp only [ls', keys, batches, queues, List.map_cons, List.map_nil,
+          List.getElem?_cons_succ, List.getElem?_cons_zero, Option.some.injEq] at hl hk hb
+        subst hl hk hb
+        exact sent1
+      | n + 2, hl, _, _ => simp [ls'] at hl)
+    (by
+      unfold ls' w'
+      refine Interleaving.pick _ 1 _ _ _ rfl ?_
+      refine Interleaving.pick _ 0 _ _ _ rfl ?_
+      exact Interleaving.done _ (by simp))
+    (by
+      unfold chunks'
+      generalize w'.flatMap encSeg = bs
+      induction bs with
+      | nil => rfl
+      | cons b t ih => simpa using ih)
+  have h0 := h.2 0 (2, .responder) _ rfl rfl
+  have h1 := h.2 1 (3, .initiator) _ rfl rfl
+  exact ⟨h.1, h0.1, h0.2.1, h1.1, h1.2.1⟩
+
 end Ex
 
 end GV.Props.C10e2e
